@@ -226,6 +226,18 @@ theorem C11_generated_code_selects (p : Char → Bool) (ρ : Env) (eff : MetaCfg
     simp only [hca', Bool.false_eq_true, if_false]
     cases q.1.dumpSkip <;> cases excluded args q.1 <;> simp
 
+open DW.GenDump in
+/-- … and the environment is not an assumption: for the call environment built from the class itself (`envOf`: the instance's
+attributes, the arguments as passed, and a closure holding exactly what the generator's `_locals[...] = …` assignments store —
+`_default_<i>`, `_skip_if_<i>`, `_skip_value`, `_skip_defaults_value`) the statement holds outright. -/
+theorem C11_generated_code_selects_env (p : Char → Bool) (eff : MetaCfg) (args : DumpArgs)
+    (fks : List (FieldInfo × S)) (vals : S → PyVal)
+    (Hd : ∀ q ∈ fks, ∃ b, defaultTest eff q.1 (vals q.1.name) = .ok b)
+    (Ho : ∀ q ∈ fks, ∃ b, ownCond eff q.1 (vals q.1.name) = .ok b) :
+    run (envOf eff args fks vals) (genBody p (ginOf eff fks)) =
+      .ok (refSelection eff args vals fks ++ tagEmits (ginOf eff fks)) :=
+  C11_generated_code_selects p _ eff args fks vals (world_envOf p eff args fks vals) Hd Ho
+
 namespace Example
 open DW.GenDump
 
